@@ -272,10 +272,12 @@ fn msm<G: Cv>(pts: &[G], sc: &[G::ScalarField]) -> G::Group {
 pub const ZERO_GROUPS: [&str; 10] = ["iota", "omicron", "sigma", "s_L", "s_R", "tau1", "tau3", "tau4", "tau5", "tau6"];
 
 pub fn ref_prove<G: Cv>(env: &Env<G>, labels: &Labels, prog: &Program, seed: u64, rng_tag: &str, dev: Option<RunDev>) -> Result<RefProved<G>, String> {
-    ref_prove_z::<G>(env, labels, prog, seed, rng_tag, dev, 0)
+    let order: Vec<usize> = (0..prog.closures.len()).collect();
+    ref_prove_z::<G>(env, labels, prog, seed, rng_tag, dev, 0, &order)
 }
 
-pub fn ref_prove_z<G: Cv>(env: &Env<G>, labels: &Labels, prog: &Program, seed: u64, rng_tag: &str, dev: Option<RunDev>, zero_mask: u32) -> Result<RefProved<G>, String> {
+/// `order`: the order in which the subject invokes the randomized closures (learnt from a real run)
+pub fn ref_prove_z<G: Cv>(env: &Env<G>, labels: &Labels, prog: &Program, seed: u64, rng_tag: &str, dev: Option<RunDev>, zero_mask: u32, order: &[usize]) -> Result<RefProved<G>, String> {
     type F<G> = <G as AffineRepr>::ScalarField;
     let mut rng = alphabet::chacha(seed, rng_tag);
     let mut cs = ModelCs::<F<G>> { t: Transcript::new(crate::program::LABEL), gates: 0, pending: None, commits: 0, _f: Default::default() };
@@ -325,7 +327,8 @@ pub fn ref_prove_z<G: Cv>(env: &Env<G>, labels: &Labels, prog: &Program, seed: u
     } else {
         cs.t.append_message(labels.l("dom-sep:2phase"), &labels.payload["dom-sep:2phase"]);
         let mut side = ModelSide::<G> { cs: &mut cs, pc: env.pc, labels, comms: &mut comms, user_label };
-        for body in &prog.closures {
+        for ci in order {
+            let body = &prog.closures[*ci];
             for op in body {
                 exec_op(*op, &mut ctx, &mut side);
             }
